@@ -88,6 +88,12 @@ func Init(hist *Sources) {
 
 	if hist.acceptHold {
 		hist.hpos = -1
+
+		// The held line is the initial content of the new call: its
+		// undo history starts afresh, as for any other new line.
+		undoHist := hist.getHistoryLineChanges()
+		undoHist[hist.hpos] = &lineHistory{}
+
 		hist.line.Set(hist.acceptLine...)
 		hist.cursor.Set(hist.line.Len())
 
